@@ -319,6 +319,88 @@ pub fn record_breakcont(seed: u64, n: usize, out: &str, rep: &mut Report) {
     rec.finish(rep);
 }
 
+/// C07, last clause: assigning to a variable at a STOP changes the continuation exactly as the
+/// same assignment written in place of the STOP would.  Run A: the program with `V = e` where
+/// the STOP was.  Run B: the program with the STOP; when it stops, the host types `V = e`, then CONT.
+pub fn record_stopassign(seed: u64, n: usize, out: &str, rep: &mut Report) {
+    let mut rec = Rec::new(out);
+    const ASSIGNS: &[&str] = &["A = 7", "B = A + 1", "S$ = \"changed\"", "P(2) = 5", "C = -0.5", "E = 100", "D = B * 2", "T$ = S$"];
+    for i in 0..n as u64 {
+        let mut rng = StdRng::seed_from_u64(seed ^ (i << 17) ^ 0xC07A);
+        let lines = gen_program(seed ^ 0x5707, i, true, true, 0.03);
+        if !lines.iter().any(|l| l.contains("STOP")) {
+            continue;
+        }
+        let assign = ASSIGNS[rng.gen_range(0..ASSIGNS.len())];
+        let replies = gen_replies(&mut rng, 40);
+        // run A: assignment in place of every STOP
+        let replaced: Vec<String> = lines.iter().map(|l| l.replace("STOP", assign)).collect();
+        let base = RunCfg { lines: &replaced, replies: &replies, trace: false, warn: false, break_p: 0.0, inspections: &[], budget: 1500, seed: Some(5) };
+        let (ta, la) = run_scheduled(&mut rec, 2 * i, &base, &mut rng, json!({"driver": "stopassign", "role": "assignment_in_place", "program": replaced}));
+        // run B: at every STOP the host types the assignment, then CONT
+        let run = 2 * i + 1;
+        let mut s = rec.reset(run, false, false, json!({"driver": "stopassign", "role": "assignment_typed_at_stop", "program": lines, "assignment": assign}));
+        rec.call(run, &mut s, call_randomize(5));
+        for l in &lines {
+            rec.call(run, &mut s, call_submit(l));
+        }
+        let mut tb = Transcript::default();
+        let mut last = rec.call(run, &mut s, call_submit("RUN"));
+        tb.absorb(&last);
+        let (mut steps, mut ri) = (0, 0);
+        while !s.dead && steps < 3000 {
+            steps += 1;
+            match s.mode() {
+                "running" => { last = rec.call(run, &mut s, call_simple("continue")); tb.absorb(&last); }
+                "awaiting" => {
+                    let r = replies.get(ri).cloned().unwrap_or_else(|| "1".to_string());
+                    ri += 1;
+                    last = rec.call(run, &mut s, call_provide(&r));
+                    tb.absorb(&last);
+                }
+                "idle" => {
+                    let stopped = last["res"]["ok"] == true && last["snap"]["bp"]["some"] == true
+                        && last["out"].as_array().map(|o| o.iter().any(|x| x["t"] == "break")).unwrap_or(false);
+                    if !stopped { break; }
+                    // the assignment (one or more host calls), then CONT
+                    let mut ev = rec.call(run, &mut s, call_submit(assign));
+                    let mut failed = ev["res"]["ok"] == false;
+                    let mut guard = 0;
+                    while !s.dead && s.mode() == "running" && guard < 20 {
+                        ev = rec.call(run, &mut s, call_simple("continue"));
+                        failed |= ev["res"]["ok"] == false;
+                        guard += 1;
+                    }
+                    if failed {
+                        // the typed assignment failed where run A's in-place assignment fails too: record it like run A does
+                        tb.absorb(&ev);
+                        last = ev;
+                        break;
+                    }
+                    last = rec.call(run, &mut s, call_submit("CONT"));
+                    tb.absorb(&last);
+                }
+                _ => break,
+            }
+        }
+        rep.count("pairs");
+        if steps >= 3000 || ta.items.last().map(|x| x == "BUDGET").unwrap_or(false) {
+            rep.count("pairs_over_budget");
+            continue;
+        }
+        // an error raised by the typed assignment has no line number, the in-place one does: compare kinds only there
+        let norm = |t: &Transcript| -> Vec<String> { t.items.iter().map(|x| if x.starts_with("ERR:") { x.split('@').next().unwrap_or(x).to_string() } else { x.clone() }).collect() };
+        if norm(&ta) != norm(&tb) || state_digest(&la)["vars"] != state_digest(&last)["vars"] || state_digest(&la)["arrays"] != state_digest(&last)["arrays"] {
+            rep.violation("C07", "assignment_at_stop_differs_from_in_place", json!({"assignment": assign}),
+                json!({"program": lines, "assignment": assign, "replies": replies, "in_place": ta.items, "typed_at_stop": tb.items}));
+        } else {
+            rep.count("pairs_nontrivial");
+        }
+        rep.sample(json!({"program": lines, "assignment": assign}));
+    }
+    rec.finish(rep);
+}
+
 /// C17: the same program and replies under the four trace/warn configurations.
 pub fn record_flags4(seed: u64, n: usize, out: &str, rep: &mut Report) {
     let mut rec = Rec::new(out);
